@@ -54,6 +54,7 @@ func udpSessionScenario(c ucfg) *mcx.Scenario {
 			onClose := 0
 			var cc *client.Conn
 			var sock *net.UDPConn
+			parentCtx, cancelParent := context.WithCancel(context.Background())
 			vrt.App("setup", func() {
 				handlerGo, handlerRuns := false, 0
 				var pc *coapNet.VerifPacketConn
@@ -88,7 +89,8 @@ func udpSessionScenario(c ucfg) *mcx.Scenario {
 					}
 					var l *coapNet.UDPConn
 					l, pc = coapNet.NewUDPConnVerif(sock, nil)
-					session := udpserver.NewSession(context.Background(), context.Background(), l, raddr, 1472, 1472, true)
+					// (interrupt parent-then-close: the connection was dialled with a parent context, as options.WithContext does)
+					session := udpserver.NewSession(parentCtx, context.Background(), l, raddr, 1472, 1472, true)
 					cfg := client.DefaultConfig
 					cfg.MessagePool = pool.New(0, 0)
 					cfg.Errors = func(error) {}
@@ -180,6 +182,13 @@ func udpSessionScenario(c ucfg) *mcx.Scenario {
 							_ = cc.Close()
 						}
 					})
+				case "parent-then-close":
+					// the parent context of the connection ends first (application shutting down), Close is called afterwards
+					vrt.App("interrupter", func() {
+						cancelParent()
+						vrt.Point("between the end of the parent context and Close")
+						_ = cc.Close()
+					})
 				case "close2":
 					for i := 0; i < 2 && c.Op != "full-queue"; i++ {
 						vrt.App(fmt.Sprintf("closer%d", i), func() { _ = cc.Close() })
@@ -232,6 +241,7 @@ func addUDPSessionScenarios(r *ev.Run, scs *[]*mcx.Scenario) {
 		*scs = append(*scs, udpSessionScenario(ucfg{DTLS: d, Op: "close-from-handler", Intr: "none", Preempt: ev.Pick(r, 1, 2)}))
 	}
 	for _, op := range []string{"do", "observe", "ping", "idle"} {
+		*scs = append(*scs, udpSessionScenario(ucfg{Op: op, Intr: "parent-then-close", Preempt: ev.Pick(r, 1, 2)}))
 		for _, in := range []string{"cancel", "close2", "read-error"} {
 			*scs = append(*scs, udpSessionScenario(ucfg{Op: op, Intr: in, Preempt: ev.Pick(r, 1, 2)}))
 			*scs = append(*scs, udpSessionScenario(ucfg{DTLS: true, Op: op, Intr: in, Preempt: ev.Pick(r, 1, 2)}))
